@@ -9,11 +9,15 @@ PROPERTIES = {
         level='proof', verus=['rlabels', 'rbranch', 'rscan', 'rpool', 'rdecode', 'rframes', 'rattrs', 'rtables', 'raccept'], kani=['flags'],
         technique=VERUS_TECH,
         claim='Unbounded proof, for the functions under contract only: the reader offset->Label table (bounds checks, exact lookup, frame, injectivity invariant), '
-              'branch-target arithmetic (i16/i32 offsets, u16 range check), switch padding and the primitive big-endian readers satisfy postconditions taken from the property statement. '
-              'Partial: the opcode match of read_code, constant-pool resolution and the tree visitor are not under contract.',
-        note='Trusted: Verus+Z3; extraction rewrites (error text dropped); assumed trait-level contracts describing std::io::Cursor; from_be_bytes stubs; '
-             'external_body Labels::get_or_add_unchecked (HashMap::entry is outside Verus); fewer than 65535 labels.',
-        out=['duke/src/class_reader.rs read_code opcode match (closure)', 'duke/src/class_reader/pool.rs', 'duke/src/visitor/implementations/tree.rs']),
+              'branch-target arithmetic and switch padding, the primitive big-endian readers, the header check (magic, every major version up to 67 whatever the minor), the constant-pool layout (JVMS 4.4, two slots for long/double), '
+              'both passes of read_code lifted as regions (every opcode form advances by its JVMS length and decodes to the instruction the JVMS table assigns, operands and branch targets resolved through the label table), '
+              'the StackMapTable loop (every frame attached to its JVMS offset), the exception table entry, LineNumberTable and LocalVariable(Type)Table loops (accepted iff offsets are in range per JVMS 4.7.3/12/13/14, every entry '
+              'attached to the labels of exactly its offsets), the delivering tail of read_code (every parsed table reaches the visitor: ghost event log), and all nine access-flag decoders (Kani, complete over u16). '
+              'Partial: annotation / module / record content parsers, the tree-building visitor and the bootstrap-method indirection are not under contract; callee contracts of the pool accessors are assumed in the region units.',
+        note='Trusted: Verus+Z3; extraction rewrites (error text dropped) and region lifting; assumed trait-level contracts describing std::io::Cursor; from_be_bytes stubs; '
+             'external_body Labels::get_or_add_unchecked (HashMap::entry is outside Verus); fewer than 65535 labels; assumed ghost-log contracts on the visitor traits; opaque tree payload types.',
+        out=['duke/src/class_reader.rs read_annotations_attribute / read_element_value* / read_type_annotations_* / read_module / read_record_component content', 'duke/src/class_reader/pool.rs get_loadable recursion through bootstrap methods',
+             'duke/src/visitor/implementations/tree.rs (tree-building visitor)']),
     'C02': dict(
         level='proof', verus=['cwrite', 'wjump', 'wpool', 'wencode'], kani=['flags'],
         technique=VERUS_TECH,
@@ -119,10 +123,15 @@ PROPERTIES = {
     'C17': dict(
         level='proof', verus=['rskip', 'rattrs', 'raccept'], kani=[],
         technique=VERUS_TECH,
-        claim='Unbounded proof, for the functions under contract only: skip_attributes consumes exactly the attribute table (count + each 6-byte header + attribute_length bytes) and fails iff a header lies beyond the data; '
-              'with_pos restores the stream position; the primitive readers consume exactly their width. Partial: per-attribute interest arms and accept() replay are not under contract.',
-        note='Trusted: Verus+Z3; extraction rewrites; assumed Cursor contracts for marker/skip/goto/read_n/read_u8_vec; from_be_bytes stubs.',
-        out=['interest arms inside read/read_field/read_method/read_code', 'duke/src/tree/*.rs accept() replay']),
+        claim='Unbounded proof, for the functions under contract only: skip_attributes consumes exactly the attribute table; with_pos restores the stream position; the primitive readers consume exactly their width; '
+              'every decline path of read_field / read_method / read_record_component / the class attribute loop (interest flag off, ControlFlow::Break, visit_code() == None) consumes exactly the declined structure, '
+              'so the items after it are read from the right offset; the first pass over the members and the declined-members path of the second pass consume exactly both member tables; '
+              'Code / Method / Field / RecordComponent / ClassFile::accept deliver to the visitor exactly the facts the item holds and the visitor is interested in, once, with the right visible flag, nothing to an uninterested visitor '
+              '(ghost event log on the visitor traits, specification generated from a table written from the property). Partial: what an interested arm of the reader consumes/delivers is C01 territory; annotation-level accept '
+              '(Annotation / ElementValue / TypeAnnotation::accept) is assumed; the composition "read then accept == read" is not proved as one theorem.',
+        note='Trusted: Verus+Z3; extraction rewrites; assumed Cursor contracts for marker/skip/goto/read_n/read_u8_vec; from_be_bytes stubs; interested attribute arms abstracted to havoc_reader (stated drop); '
+             'assumed ghost-log contracts on the visitor traits (declarations only); opaque tree payload types.',
+        out=['interested attribute arms of the reader (content parsers)', 'duke/src/tree/annotation.rs, type_annotation.rs accept', 'duke/src/visitor/implementations/*.rs']),
 }
 
 NOT_APPLICABLE = {
